@@ -457,6 +457,9 @@ pub fn run(tier: Tier) -> i32 {
         crash_subject: "hooks".into(),
     };
     let g = gen(maxk);
+    if let Some(art) = crate::common::replay_artefact() {
+        return crate::common::finish_replay("C12", &art, &|ws| confirm_enum(&o, &g, ws));
+    }
     let out = run_enum(&o, &g);
     enum_evidence(&mut run, &out, "one case = (outcomes of up to k before-hooks and k after-hooks on `inc rcx` from {Unhandled, Handled, Stop, Error, Mutate(RBX), Register-a-hook-from-inside}, a logging hook pair on `nop`, one of 4 programs, one of 5 follow-up API calls); the event log of instrumented native hooks is checked against the order-agnostic grammar of DESIGN C12; states = distinct (hook event log, program, follow-up); distinct_nontrivial = distinct hook event logs");
     run.cov("max_hooks_per_phase", json!(maxk));
